@@ -25,6 +25,11 @@ CONSTANTS
   GlClasses <- GAll
   FeeClasses <- FAll
   AlClasses <- ALAll
+  FrameKinds <- FKOld
+  CallTargets <- AnyAcct
+  TxTargets <- AnyAcct
+  Benefs <- AnyAcct
+  WpOps <- WPNone
   MaxDepth = 2
   MaxFrameOps = 1
   MaxTx = 1
